@@ -440,7 +440,25 @@ pub fn run(ctx: &mut Ctx, replay: Option<&str>) {
     let mut results = vec![];
     for a in &cases {
         ctx.evaluations += 1;
-        let r = issue(a);
+        // every fifth case is issued by an instance that has just REFUSED another claim set (an array of claims, or claims with a
+        // reserved name, walked under the same strategy): nothing of the refused set reaches this credential
+        let r = if ctx.evaluations % 5 == 2 {
+            let mut refused = a.clone();
+            refused.claims = if ctx.evaluations % 10 == 2 { json!([{"foreign-secret-1": "x", "nested": {"foreign-secret-2": [1, 2]}}, "foreign-secret-3"]) } else { json!({"iss": "x", "exp": 1, "foreign": {"_sd": ["foreign-secret-4"]}, "more": ["foreign-secret-5"]}) };
+            if !matches!(refused.strategy, Strategy::Custom(_)) {
+                refused.strategy = if ctx.evaluations % 3 == 0 { Strategy::Top } else { Strategy::All };
+            }
+            match issue_sequence(a.key, a.alg.clone(), vec![refused, a.clone()]) {
+                Some(mut seq) if seq.len() == 2 => {
+                    ctx.count("issuer.reused_instance(after a refused claim set)");
+                    ctx.impl_calls += 1;
+                    seq.pop().unwrap()
+                }
+                _ => issue(a),
+            }
+        } else {
+            issue(a)
+        };
         ctx.impl_calls += 1;
         let i = reqs.len();
         reqs.push(issue_request(i, a, &r));
